@@ -158,6 +158,7 @@ def _sutton(g, n2, h2s, co2, dry, *others):
         warnings.simplefilter("ignore")
         comp = P["make_nonhydrocarbon_properties"](n2, h2s, co2, *others)
         other = P["make_nonhydrocarbon_properties"](0.11 - n2, 0.07 - h2s, 0.13 - co2)   # a different (sour) gas, still alive
+        P["pseudocritical_point_Sutton"](g, comp, "wet gas" if dry == "dry gas" else "dry gas")   # the same table used before
         out = P["pseudocritical_point_Sutton"](g, comp, dry)
         del other
         return out
@@ -185,6 +186,14 @@ def judge_sutton_zero(spec: Spec, pl: dict) -> list:
     g, dry = pl["g"], pl["dryness"]
     base = _sutton(g, pl["n2"], pl["h2s"], pl["co2"], dry)
     more = _sutton(g, pl["n2"], pl["h2s"], pl["co2"], dry, ("Extra", 0.0, *pl["extra"]))
+    # the point of a composition table does not depend on whether the table was used before: a freshly described table, used once
+    P = drv.prims()
+    with warnings.catch_warnings():
+        warnings.simplefilter("ignore")
+        once = P["pseudocritical_point_Sutton"](g, P["make_nonhydrocarbon_properties"](pl["n2"], pl["h2s"], pl["co2"]), dry)
+    if max(quant.ulps(base[0], once[0]), quant.ulps(base[1], once[1])) > spec.ulp_max:
+        return [("ZeroFraction", f"gravity {g!r}, (N2,H2S,CO2)=({pl['n2']},{pl['h2s']},{pl['co2']}), {dry!r}: a composition table that "
+                 f"was evaluated before gives {base}, a freshly described one {once}")]
     if max(quant.ulps(base[0], more[0]), quant.ulps(base[1], more[1])) > spec.ulp_max:
         return [("ZeroFraction", f"gravity {g!r}, (N2,H2S,CO2)=({pl['n2']},{pl['h2s']},{pl['co2']}), {dry!r}: a zero-fraction "
                  f"component {pl['extra']} moves the point from {base} to {more}")]
